@@ -321,15 +321,15 @@ func (f *frame) chanRecvOp(ch Value, st *State) (Value, *Term) {
 		okFresh = TTrue
 	}
 	ok := Ite(nonEmpty, TTrue, Ite(closed, TFalse, okFresh))
-	if f.closable {
-		// a receive that had to wait and got no value: another goroutine closed the channel
-		cr := st.region(chReg("closed", ch.T), SArr(SBool))
-		st.setRegion(chReg("closed", ch.T), Store(cr, ref, Or(closed, And(Not(nonEmpty), Not(ok)))))
-	}
 	if ct, isChan := ch.T.Underlying().(*types.Chan); isChan && ct.Dir() == types.RecvOnly {
 		// receive-only signal channels (quit, Done, timers): a receive is modelled without consuming
 		x.note("receives on receive-only (signal) channels are modelled without consuming a value")
 		return val, ok
+	}
+	if f.closable {
+		// a receive that had to wait and got no value: another goroutine closed the channel
+		cr := st.region(chReg("closed", ch.T), SArr(SBool))
+		st.setRegion(chReg("closed", ch.T), Store(cr, ref, Or(closed, And(Not(nonEmpty), Not(ok)))))
 	}
 	st.setRegion(chReg("len", ch.T), Store(st.region(chReg("len", ch.T), sArrII), ref, Ite(nonEmpty, Sub(ln, Num(1)), ln)))
 	st.setRegion(chReg("head", ch.T), Store(st.region(chReg("head", ch.T), sArrII), ref, Ite(nonEmpty, Add(head, Num(1)), head)))
